@@ -167,6 +167,101 @@ theorem determinant_entry (W : Matrix (Fin m) (Fin k) K) (d0 d : List Bool)
 
 end jacobi
 
+
+/-! ## the whole list: `multislater._calc_overlap` = `Σ_i c_i ⟨D_i|φ⟩` -/
+
+section wholeList
+open AfqmcVerif.Dets
+
+open Matrix
+
+variable {K : Type} [Field K] {m k : ℕ}
+
+/-- minor of the walker on a list of rows (0 when the list is not a list of `k` valid rows) -/
+def minorOn (W : Matrix (Fin m) (Fin k) K) (L : List Nat) : K :=
+  if h : L.length = k ∧ ∀ x ∈ L, x < m then (W.submatrix (rowsOf L m k h.1 h.2) id).det else 0
+
+/-- the excitation block `Θ[particles, hole positions]` of `Θ = W (W_ref)⁻¹` for the determinant `d` seen from `d0` -/
+noncomputable def excBlock (W : Matrix (Fin m) (Fin k) K) (d0 d : List Bool) : K :=
+  if h : ((occList d0).length = k ∧ ∀ x ∈ occList d0, x < m) ∧ ((inPlace d0 d).length = k ∧ ∀ x ∈ inPlace d0 d, x < m) then
+    (toSquareBlockProp ((W * (W.submatrix (rowsOf (occList d0) m k h.1.1 h.1.2) id)⁻¹).submatrix
+        (rowsOf (inPlace d0 d) m k h.2.1 h.2.2) id)
+      (fun p => (rowsOf (occList d0) m k h.1.1 h.1.2 p).val ∈ holes d0 d)).det
+  else 0
+
+/-- one spin block of one list entry, as `multislater` evaluates it = the amplitude of the determinant -/
+theorem entry_eq (W : Matrix (Fin m) (Fin k) K) (d0 d : List Bool)
+    (hl0 : d0.length = m) (hl : d.length = m) (hk : (occList d0).length = k) (hp : popcount d0 = popcount d)
+    (hW : minorOn W (occList d0) ≠ 0) :
+    minorOn W (occList d) = ((parity d0 d : ℤ) : K) * (minorOn W (occList d0) * excBlock W d0 d) := by
+  have hm0 : ∀ x ∈ occList d0, x < m := fun x hx => hl0 ▸ (mem_occList.1 hx).1
+  have hkd : (occList d).length = k := by
+    rw [← hk]; have := popcount_eq d0; have := popcount_eq d; unfold occList; omega
+  have hmd : ∀ x ∈ occList d, x < m := fun x hx => hl ▸ (mem_occList.1 hx).1
+  have hke : (inPlace d0 d).length = k := by rw [← hk]; simp [inPlace]
+  have hme : ∀ x ∈ inPlace d0 d, x < m := fun x hx =>
+    hl ▸ (mem_occList.1 (((inPlace_rep d0 d (hl0.trans hl.symm) hp).2 x).1 hx)).1
+  have e0 : minorOn W (occList d0) = (W.submatrix (rowsOf (occList d0) m k hk hm0) id).det := by
+    unfold minorOn; rw [dif_pos ⟨hk, hm0⟩]
+  have e1 : minorOn W (occList d) = (W.submatrix (rowsOf (occList d) m k hkd hmd) id).det := by
+    unfold minorOn; rw [dif_pos ⟨hkd, hmd⟩]
+  have e2 : excBlock W d0 d = (toSquareBlockProp ((W * (W.submatrix (rowsOf (occList d0) m k hk hm0) id)⁻¹).submatrix
+        (rowsOf (inPlace d0 d) m k hke hme) id)
+      (fun p => (rowsOf (occList d0) m k hk hm0 p).val ∈ holes d0 d)).det := by
+    unfold excBlock; rw [dif_pos ⟨⟨hk, hm0⟩, ⟨hke, hme⟩⟩]
+  have hunit : IsUnit (W.submatrix (rowsOf (occList d0) m k hk hm0) id).det := by
+    rw [← e0]; exact isUnit_iff_ne_zero.2 hW
+  have := determinant_entry W d0 d hl0 hl hk hp hunit
+  rw [e0, e1, e2]
+  exact this
+
+
+open Matrix
+
+variable {K : Type} [Field K] {m ka kb : ℕ}
+
+/-- one entry of a determinant list: alpha string, beta string, coefficient -/
+structure DetRec (K : Type) where
+  da : List Bool
+  db : List Bool
+  c : K
+
+/-- `⟨ψ_T|φ⟩` for `|ψ_T⟩ = Σ_i c_i |D_i⟩` (alpha string × beta string), real coefficients, written over occupation strings -/
+def msSpec (Wa : Matrix (Fin m) (Fin ka) K) (Wb : Matrix (Fin m) (Fin kb) K) (L : List (DetRec K)) : K :=
+  (L.map fun D => D.c * (minorOn Wa (occList D.da) * minorOn Wb (occList D.db))).sum
+
+/-- `multislater._calc_overlap`: reference overlap times the sum over the list of (coefficient × parities, as
+`get_excitations` stores it) × alpha block × beta block of the Green's function `Θ = W (W_ref)⁻¹` -/
+noncomputable def msCode (ra rb : List Bool) (Wa : Matrix (Fin m) (Fin ka) K) (Wb : Matrix (Fin m) (Fin kb) K)
+    (L : List (DetRec K)) : K :=
+  (minorOn Wa (occList ra) * minorOn Wb (occList rb)) *
+    (L.map fun D => (D.c * ((parity ra D.da : ℤ) : K) * ((parity rb D.db : ℤ) : K))
+      * (excBlock Wa ra D.da * excBlock Wb rb D.db)).sum
+
+/-- **a determinant-list trial means what it says** (every number of orbitals and electrons, every list, every
+reference determinant, every excitation rank): the Wick-type formula of `multislater` equals the explicit sum over
+determinants, whenever the walker has non-vanishing overlap with the reference determinant -/
+theorem multislater_overlap (ra rb : List Bool) (Wa : Matrix (Fin m) (Fin ka) K) (Wb : Matrix (Fin m) (Fin kb) K)
+    (L : List (DetRec K)) (hra : ra.length = m) (hrb : rb.length = m)
+    (hka : (occList ra).length = ka) (hkb : (occList rb).length = kb)
+    (hWa : minorOn Wa (occList ra) ≠ 0) (hWb : minorOn Wb (occList rb) ≠ 0)
+    (hL : ∀ D ∈ L, D.da.length = m ∧ D.db.length = m ∧ popcount ra = popcount D.da ∧ popcount rb = popcount D.db) :
+    msCode ra rb Wa Wb L = msSpec Wa Wb L := by
+  unfold msCode msSpec
+  induction L with
+  | nil => simp
+  | cons D t ih =>
+    have hD := hL D (by simp)
+    have ht : ∀ D' ∈ t, D'.da.length = m ∧ D'.db.length = m ∧ popcount ra = popcount D'.da ∧ popcount rb = popcount D'.db :=
+      fun D' h' => hL D' (List.mem_cons_of_mem _ h')
+    rw [List.map_cons, List.sum_cons, List.map_cons, List.sum_cons, mul_add, ih ht]
+    congr 1
+    rw [entry_eq Wa ra D.da hra hD.1 hka hD.2.2.1 hWa, entry_eq Wb rb D.db hrb hD.2.1 hkb hD.2.2.2 hWb]
+    ring
+
+
+end wholeList
+
 /-! ## zero variance -/
 
 variable {n : Type} [Fintype n] [DecidableEq n] {K : Type} [Field K]
